@@ -10,8 +10,9 @@
      accepted iff [folded >= i64::MIN as f64 && folded <= i64::MAX as f64],
      then converted back with [folded as i64] (saturating); otherwise
      [Err(NumberOutOfRange)] (a compile error).
-   * [IR::minus] folds [-v] (i64 negation: panics on i64::MIN when overflow
-     checks are on, which is the profile the harness uses).
+   * [IR::minus] folds [-v]: with [v.wrapping_neg()] when the generated flag
+     [minus_wraps] is set, otherwise with the plain i64 negation, which panics
+     on i64::MIN when overflow checks are on (the profile the harness uses).
    * [IR::bitwise_not/and/or/xor] fold directly on i64.
    * [IR::shl/shr] fold when both are constant and [rhs >= 0]:
      [if rhs >= 64 {0} else {lhs << rhs}] (resp. [>>], arithmetic).
@@ -251,7 +252,8 @@ Fixpoint ifold (via_f64 : bool) (e : iexp) : cres iexp :=
   | INeg e =>
       cbind (ifold via_f64 e) (fun e' =>
         match as_const e' with
-        | Some v => if v =? i64_min then CPanicNeg else COk (IConst (- v))
+        | Some v => if minus_wraps then COk (IConst (wrap64 (0 - v)))       (* v.wrapping_neg() *)
+                    else if v =? i64_min then CPanicNeg else COk (IConst (- v))
         | None => COk (INeg e')
         end)
   | IBNot e =>
